@@ -87,6 +87,14 @@ func runC15(r *run) {
 				inners = append(inners, c15Text(g))
 				texts = append(texts, c15Text(g))
 			}
+			// a {# comment #} inside a text (marked by a NUL here) splits it into two texts: only
+			// the part that touches a delimiter is that delimiter's adjacent text
+			for k := range texts {
+				if len(texts[k]) >= 2 && g.chance(1, 3) {
+					at := 1 + g.intn(len(texts[k])-1)
+					texts[k] = texts[k][:at] + "\x00" + texts[k][at:]
+				}
+			}
 			// every subset of the four dash positions of the first construct, a random subset for the others
 			for mask := 0; mask < 16; mask++ {
 				for k, c := range cons {
@@ -175,8 +183,16 @@ func c15Build(texts, inners []string, cons []*c15Construct, trim, lstrip bool) (
 		if p.txt == "" {
 			// no text token at all: nothing to strip (and neighbours become adjacent)
 		}
-		marked.WriteString(p.txt)
-		out.WriteString(strip(p))
+		if i := strings.IndexByte(p.txt, 0); i >= 0 {
+			marked.WriteString(p.txt[:i] + "{# c #}" + p.txt[i+1:])
+			left, right := p, p
+			left.txt, left.beforeBlock, left.dashRight = p.txt[:i], false, false
+			right.txt, right.afterBlock, right.dashLeft = p.txt[i+1:], false, false
+			out.WriteString(strip(left) + strip(right))
+		} else {
+			marked.WriteString(p.txt)
+			out.WriteString(strip(p))
+		}
 		if k < len(cons) {
 			c := cons[k]
 			marked.WriteString(c.marked(inners[k]))
